@@ -129,8 +129,11 @@ Fixpoint gen_from (k : nat) (i : N) (seed : N) : str :=
   match k with O => [] | S k' => ((i * 7 + seed) mod 251) :: gen_from k' (i + 1) seed end.
 Definition gen_bytes (seed : N) (n : nat) : str := gen_from n 0 seed.
 Definition v2_payload : str := b "GET /".
+(* a header whose version nibble is not 2 is refused after 16 bytes: only the first 64 bytes of its body are sent *)
+Definition vcase_body_len (c : vcase) : N :=
+  if N.land (vc_vc c) 240 =? 32 then vc_len c else N.min (vc_len c) 64.
 Definition vcase_input (c : vcase) : str :=
-  V2_SIG ++ [vc_vc c; vc_fam c; vc_len c / 256; vc_len c mod 256] ++ gen_bytes (vc_seed c) (N.to_nat (vc_len c)) ++ v2_payload.
+  V2_SIG ++ [vc_vc c; vc_fam c; vc_len c / 256; vc_len c mod 256] ++ gen_bytes (vc_seed c) (N.to_nat (vcase_body_len c)) ++ v2_payload.
 
 Definition ip_to_N (ip : str) : N := fold_left (fun acc x => acc * 256 + x) ip 0.
 Fixpoint n2bytes (k : nat) (n : N) (acc : str) : str :=
